@@ -130,7 +130,9 @@ def _install():
                 run.observe((opname, 'err', type(e).__name__))
                 raise
             if opname in ('stat',):
-                run.observe((opname, res.st_size, int(res.st_mtime), res.st_mode & 0o170000))
+                isdir = (res.st_mode & 0o170000) == 0o040000
+                # a directory's size/mtime are real-time artefacts nobody in the protocol looks at
+                run.observe((opname, 'dir') if isdir else (opname, res.st_size, int(res.st_mtime)))
             elif opname == 'listdir':
                 run.observe((opname, tuple(sorted(res))))
             else:
@@ -236,6 +238,7 @@ def _install():
             return _real['set_data'](self, path, data, **k)
         run.point('write-pyc', _norm(path))
         res = _real['set_data'](self, path, data, **k)
+        run.stamp(_norm(path))
         run.observe(('write-pyc', 'ok'))
         return res
     _M.SourceFileLoader.set_data = w_set_data
@@ -351,8 +354,8 @@ class Run:
             raise Crash()
         step = p.pc
         p.pc += 1
-        self.log.append((p.pid, op, self.rel(path), detail))
         if self.crash is not None and self.crash[0] == p.pid and self.crash[1] == step:
+            self.log.append((p.pid, op, self.rel(path), detail))
             if self.crash[2] is None or op != 'write':
                 p.dead = True
                 raise Crash()
@@ -368,6 +371,8 @@ class Run:
                 self._schedule(p)
         if p.dead:
             raise Crash()
+        # the log is in EFFECT order: a step is recorded when the process is allowed to perform it
+        self.log.append((p.pid, op, self.rel(path), detail))
         return None
 
     def _enabled(self, running):
@@ -556,3 +561,31 @@ def dir_state(root):
                 out.append((canon_name(rel + f), h, st.st_size, int(st.st_mtime)))
     walk(root, '')
     return tuple(sorted(out))
+
+
+class RemoteRun(Run):
+    """The same interposition inside a REAL interpreter process: every file-system step announces itself on
+    `fout` and waits on `fin` for the parent's go (which also carries the harness clock). Used to replay a
+    recorded schedule of the virtual processes with real operating-system processes."""
+
+    def __init__(self, root, clock, pid, fin, fout, write_bytecode):
+        Run.__init__(self, root, clock, (), sequential=True)
+        self.fin, self.fout, self.mypid = fin, fout, pid
+        p = Proc(pid, None, write_bytecode)
+        self.procs = [p]
+        self.by_thread[threading.get_ident()] = p
+
+    def point(self, op, path, detail=None):
+        p = self.cur()
+        p.pc += 1
+        self.fout.write('STEP %d %s %s\n' % (self.mypid, op, canon_name(self.rel(path) or '-')))
+        self.fout.flush()
+        line = self.fin.readline().split()
+        if not line or line[0] != 'go':
+            raise SystemExit(3)
+        self.clock = int(line[1])
+        return None
+
+    def attach(self):
+        _install()
+        _RUN[0] = self
